@@ -631,6 +631,7 @@ func build(tier string) *enum {
 	e.jobs = append(e.jobs, jobsFor(typ[int, data.NDInt]{"int", func(f, d string, s [][]int) Ref[int, data.NDInt] {
 		return io.H5RefInt{Filename: f, Dataset: d, Slice: s}
 	}, data.ArrayFromSliceInt}, tier, false)...)
+	e.jobs = append(e.jobs, lockJobs(tier)...)
 	e.jobs = append(e.jobs, jobsFor(typ[uint, data.NDUint]{"uint", func(f, d string, s [][]int) Ref[uint, data.NDUint] {
 		return io.H5RefUint{Filename: f, Dataset: d, Slice: s}
 	}, data.ArrayFromSliceUint}, tier, false)...)
@@ -639,16 +640,23 @@ func build(tier string) *enum {
 
 func Spec() *vf.Check {
 	return &vf.Check{
-		ID: "C08", Level: "model_checking", BlockSize: 1,
+		ID: "C08", Level: "model_checking", BlockSize: 1, HangSeconds: 3600,
 		Rule: "(a) every selection [start,stop,step] with start in 0..n+1, stop in 0..n+2, step in 1..4 and nil, for extents 1..6, for [3,4] and a reduced product for [2,3,4], loaded through the real H5Ref code and compared with the in-memory Slice (empty selections: only 'no panic'); " +
 			"(b) explicit-state search over histories of Create / Write (contiguous, column, stepped, reshaped sources) / WriteSlice on two dataset paths (one nested in a group) and two shapes to depth 3 (thorough 4), 8 element types, states keyed by the content of the file; after every history Exists/Load/Shape/strided Load/GetDatasets/GetGroups and the whole file tree are compared with a map model; " +
-			"(c) lock discipline and interleavings: see the scheduler part.",
+			"(c) lock discipline: 2 or 3 concurrent callers with 1-2 operations each from {Load, Load(selection), LoadText, Shape, Exists, Write, WriteSlice, Create, Write(other dataset)} on one file: every interleaving that departs at most 2 (thorough 3) times from the default schedule under the controlled scheduler (scheduling points at every lock operation and at every library call made without the lock); at every fake-HDF5 call the caller must hold the package lock (write mode for create/truncate/write/open-for-write calls) and no write-class call may overlap another thread's call; every execution's results and final file content must equal those of some sequential order of the operations (all merge orders computed up front); -race build.",
 		Assumptions: []string{"HDF5 is replaced by the in-memory stand-in fakehdf5 (documented hyperslab semantics; raw transfer in the dataset's type); the real library is not in the image", "WriteSlice blocks that do not fit the dataset are not enumerated (undefined by the statement; the repository ignores the library's error there)"},
 		Build:       func(tier string) vf.Enumeration { return build(tier) },
 		Finish: func(tier string, m *vf.Merged, cov map[string]interface{}) {
 			cov["states"] = m.Counters["history_states"]
 			cov["transitions"] = m.Counters["history_transitions"]
-			cov["traces_validated_against_impl"] = m.Counters["history_transitions"] + m.Counters["selections"]
+			cov["traces_validated_against_impl"] = m.Counters["history_transitions"] + m.Counters["selections"] + m.Counters["lock_schedules"]
+			cov["states"] = m.Counters["history_states"] + m.Counters["lock_scheduling_points"]
+			cov["transitions"] = m.Counters["history_transitions"] + m.Counters["lock_scheduling_points"]
+			cov["evaluations"] = m.Counters["selections"] + m.Counters["history_transitions"] + m.Counters["lock_schedules"]
+			cov["distinct_nontrivial"] = m.Counters["selections"] - m.Counters["empty_selections"] + m.Counters["history_states"] + m.Counters["lock_scenarios"]
+			if m.Counters["lock_part_skipped_build_not_instrumented"] > 0 {
+				cov["exhaustive"] = false
+			}
 		},
 	}
 }
